@@ -400,6 +400,29 @@ func determPathsPar2(w *World, r *Report, everyInput bool) {
 			}
 			var contribBlocks []*ssa.BasicBlock
 			arg := stripConv(args[3])
+			// the list may be built by a module helper (`abs, err := makeAbsPaths(filePaths)`):
+			// judge the slice the helper returns on its non-nil return
+			if ex, isEx := arg.(*ssa.Extract); isEx && ex.Index == 0 {
+				if hc, isCall := ex.Tuple.(*ssa.Call); isCall {
+					if g := hc.Call.StaticCallee(); g != nil && len(g.Blocks) > 0 && g.Pkg != nil && isModPath(g.Pkg.Pkg.Path()) {
+						var rets []ssa.Value
+						for _, b := range g.Blocks {
+							if ret, ok := b.Instrs[len(b.Instrs)-1].(*ssa.Return); ok && len(ret.Results) > 0 && !isNilConst(ret.Results[0]) {
+								dup := false
+								for _, v := range rets {
+									dup = dup || v == ret.Results[0]
+								}
+								if !dup {
+									rets = append(rets, ret.Results[0])
+								}
+							}
+						}
+						if len(rets) == 1 {
+							arg = stripConv(rets[0])
+						}
+					}
+				}
+			}
 			if mk, isMk := arg.(*ssa.MakeSlice); isMk {
 				for _, ref := range referrersOf(mk) {
 					ia, isIa := ref.(*ssa.IndexAddr)
